@@ -513,3 +513,118 @@ def alias_callers(P, rep, rule="WHO.alias"):
                     rep.violation(rule, "%s called from %s" % (impl, F.qn), F.nloc(node), F.qn, norm.render(P, node)[:80], "the +-2*pi alias of the point is not tried",
                                   key="%s|%s|%s" % (rule, impl, F.qn), witness="spherical feature straddling the 180 meridian, point given with the other longitude sign")
     rep.floor(rule, n, 3, "call sites of alias-unaware implementations")
+
+
+# ------------------------------------------------------------------------------------------------
+def bbox_longitude_buffer(P, rep, rule="DEP.bbox-lon"):
+    """the longitude buffer of the spherical bounding box of a slab / fault dominates buffer/cos(latitude) at both ends of the trench"""
+    rep.rule(rule, "the spherical bounding box of a slab / fault is [min_lon - b*k_w, max_lon + b*k_e] x [min_lat - b, max_lat + b]: an angular "
+                   "distance b corresponds to b/cos(lat) in longitude, so both k_w and k_e must be at least 1/cos(min_lat) and 1/cos(max_lat) "
+                   "(the stretch of the poleward edge), whichever hemisphere the trench is in; decided on the extracted expressions "
+                   "(k = max of both factors, or a term sympy proves to dominate both)")
+    from .segments import LINE
+    n = 0
+    for name, cls in LINE.items():
+        fs = [F for F in P.funcs.values() if F.qn.startswith(cls + "::") and F.body is not None and
+              any(y.get("k") == "DeclRefExpr" and "spherical_bounding_box" == y.get("n") for y in F.walk(F.body))]
+        if len(fs) != 1:
+            rep.unknown(rule, "%s: the function that sets the spherical bounding box was not identified (%d candidates)" % (name, len(fs)))
+            continue
+        F = fs[0]
+        # unique assignments to fields of this class in F: field key -> rhs
+        fasg = {}
+        for y in F.walk(F.body):
+            if y.get("k") in ("BinaryOperator",) and y.get("op") == "=":
+                t = sc(y["c"][0])
+                if t is not None and t.get("k") == "MemberExpr" and astq.is_this_field(P, t):
+                    fasg.setdefault(t["r"], []).append(y["c"][1])
+        miny, maxy, minx, maxx = sp.symbols("min_lat max_lat min_lon max_lon", real=True)
+        role = {"min_along_y": miny, "max_along_y": maxy, "min_along_x": minx, "max_along_x": maxx}
+
+        def hook(nn, depth=[0]):
+            if nn.get("k") == "MemberExpr" and astq.is_this_field(P, nn):
+                if nn.get("n") in role:
+                    return role[nn["n"]]
+                rh = fasg.get(nn["r"])
+                if rh and len(rh) >= 1 and depth[0] < 6:
+                    depth[0] += 1
+                    try:
+                        return S(rh[-1])
+                    finally:
+                        depth[0] -= 1
+            if nn.get("k") == "DeclRefExpr" and P.d(nn["r"]).get("qn") == "WorldBuilder::Consts::PI":
+                return sp.pi
+            return None
+        S = norm.Sym(P, F, inline_locals=True, hook=hook)
+        corners = {}
+        for y in F.walk(F.body):
+            if y.get("k") in ("BinaryOperator", "CXXOperatorCallExpr") and y.get("op") == "=":
+                kids = [x for x in y["c"] if x is not None]
+                t = sc(kids[-2])
+                if t is not None and t.get("k") == "MemberExpr" and t.get("n") in ("first", "second") and t.get("c") and sc(t["c"][0]).get("n") == "spherical_bounding_box":
+                    # the two scalar entries of the initialiser
+                    leaves = []
+
+                    def scal(nd):
+                        nd0 = sc(nd)
+                        if nd0 is None:
+                            return
+                        if (nd0.get("t") or "").replace("const ", "") == "double" and nd0.get("k") not in ("InitListExpr",):
+                            leaves.append(nd0)
+                            return
+                        for c_ in nd0.get("c") or []:
+                            if c_ is not None:
+                                scal(c_)
+                    scal(kids[-1])
+                    if len(leaves) >= 2:
+                        corners[t["n"]] = (y, leaves[0], leaves[1])
+        if set(corners) != {"first", "second"}:
+            rep.unknown(rule, "%s: the two corners of the spherical bounding box are not assigned as {lon, lat, spherical}" % name)
+            continue
+        n += 1
+        try:
+            lo_lon, lo_lat = S(corners["first"][1]), S(corners["first"][2])
+            hi_lon, hi_lat = S(corners["second"][1]), S(corners["second"][2])
+        except Exception as e:
+            rep.unknown(rule, "%s: %s" % (name, e))
+            continue
+        def minmax(e):
+            """(a < b) ? b : a and its variants are max(a, b) / min(a, b)"""
+            def fix(x):
+                c_, t_, f_ = x.args
+                if isinstance(c_, (sp.Lt, sp.Le, sp.Gt, sp.Ge)) and {sp.simplify(c_.args[0] - t_), sp.simplify(c_.args[0] - f_)} == {0, sp.simplify(c_.args[0] - c_.args[1])} | {0}:
+                    lhs_is_t = sp.simplify(c_.args[0] - t_) == 0
+                    less = isinstance(c_, (sp.Lt, sp.Le))
+                    # cond true -> t_.  (lhs < rhs) ? lhs : rhs = min ; (lhs < rhs) ? rhs : lhs = max
+                    pick_smaller = (less and lhs_is_t) or (not less and not lhs_is_t)
+                    return sp.Min(t_, f_) if pick_smaller else sp.Max(t_, f_)
+                return x
+            return e.replace(lambda x: getattr(x.func, "__name__", "") == "ite" and len(x.args) == 3, fix)
+        lo_lon, lo_lat, hi_lon, hi_lat = [minmax(e_) for e_ in (lo_lon, lo_lat, hi_lon, hi_lat)]
+        b_lo, b_hi = sp.simplify(miny - lo_lat), sp.simplify(hi_lat - maxy)
+        problems = []
+        if sp.simplify(b_lo - b_hi) != 0 or b_lo == 0 or b_lo.has(miny) or b_lo.has(maxy):
+            problems.append(("lat", "the latitude range is [%s, %s], not [min_lat - b, max_lat + b] with one buffer b" % (lo_lat, hi_lat)))
+        else:
+            c1, c2 = sp.symbols("cos_min_lat cos_max_lat", positive=True)
+            for side, k in (("western", sp.simplify((minx - lo_lon) / b_lo)), ("eastern", sp.simplify((hi_lon - maxx) / b_lo))):
+                k2 = k.subs({sp.cos(miny): c1, sp.cos(maxy): c2})
+                if k2.free_symbols - {c1, c2}:
+                    problems.append((side, "the %s longitude buffer is b*(%s), which depends on more than the two end latitudes" % (side, k)))
+                    continue
+                dominated = []
+                for c_, what in ((c1, "min_lat"), (c2, "max_lat")):
+                    d_ = sp.simplify(k2 - 1 / c_)
+                    okd = d_ == 0 or d_.is_nonnegative is True or (isinstance(k2, sp.Max) and any(sp.simplify(a_ - 1 / c_) == 0 or (a_ - 1 / c_).is_nonnegative for a_ in k2.args))
+                    if not okd:
+                        dominated.append(what)
+                if dominated:
+                    problems.append((side, "the %s longitude buffer is b*(%s): it is not at least b/cos(%s)" % (side, k, "), b/cos(".join(dominated))))
+        if problems:
+            for key, why in problems:
+                rep.violation(rule, "%s: %s" % (name, why), F.nloc(corners["first"][0]), F.qn, norm.render(P, corners["first"][0])[:140],
+                              "at high latitudes the box is too narrow on that side: members of the feature are discarded by the bounding-box shortcut",
+                              key="%s|%s|%s" % (rule, name, key), witness="a trench from latitude 10 to 84 along a meridian, dipping west: points at latitude 83.9, 350 km west of it")
+        else:
+            rep.ok(rule, "%s: both longitude buffers are b*max(1/cos(min_lat), 1/cos(max_lat))" % name, F.nloc(corners["first"][0]), F.qn)
+    rep.floor(rule, n, 2, "spherical bounding boxes")
